@@ -128,9 +128,37 @@ def _walk(e):
     return out
 
 
+# key tables of the disk engine (PRIMARY KEY on a, not enforced unique): scans are ordered by the key, which is
+# only a prefix of what these queries need (order analysis: useless-order, sort-agg, merge-join rules)
+PK_DATA = {"t1": [[1, 3, "a"], [1, 1, "b"], [2, 2, "a"], [1, 3, "c"], [2, 1, ""], [1, 2, "a"], [3, 0, None], [2, 2, "b"], [1, 1, "a"]],
+           "t2": [[1, 1, "x"], [2, 2, "y"], [1, 3, "z"], [2, 5, "y"], [1, 1, "w"]],
+           "t3": [[1, 1], [2, 2], [1, 3], [2, 1]]}
+
+
+def pk_family():
+    t = lambda name, al: ("t", name, al)
+    qs = []
+    allc = [(C("x1", "a"), "c1"), (C("x1", "b"), "c2"), (C("x1", "c", STR), "c3")]
+    for ords in ([(0, "asc"), (1, "asc"), (2, "asc")], [(0, "asc"), (1, "desc"), (2, "asc")], [(0, "desc"), (1, "asc"), (2, "desc")]):
+        qs.append(dict(BASE, sel=allc, frm=t("t1", "x1"), ord=ords))
+        qs.append(dict(BASE, sel=allc, frm=t("t1", "x1"), ord=ords, lim=4, off=2))
+    qs.append(dict(BASE, sel=[(C("x1", "a"), "c1"), (C("x1", "b"), "c2"), (("agg", "count*"), "c3")], frm=t("t1", "x1"),
+                   grp=[C("x1", "a"), C("x1", "b")], agg=True))
+    qs.append(dict(BASE, sel=[(C("x1", "a"), "c1"), (C("x1", "b"), "c2")], frm=t("t1", "x1"), dist=True))
+    on2 = AND(B("=", C("x1", "a"), C("x2", "a")), B("=", C("x1", "b"), C("x2", "b")))
+    for jt in ("inner", "left"):
+        qs.append(dict(BASE, sel=[(C("x1", "a"), "c1"), (C("x1", "b"), "c2"), (C("x1", "c", STR), "c3"), (C("x2", "c", STR), "c4")],
+                       frm=("join", jt, t("t1", "x1"), t("t2", "x2"), on2)))
+    qs.append(dict(BASE, sel=[(C("x1", "a"), "c1"), (C("x3", "b"), "c2")], frm=("join", "inner", t("t1", "x1"), t("t3", "x3"),
+                   AND(B("=", C("x1", "a"), C("x3", "a")), B("=", C("x1", "b"), C("x3", "b"))))))
+    return qs
+
+
 def cases():
     out = []
     for q in family():
         for db in DATA:
             out.append({"db": {t: [list(r) for r in rows] for t, rows in db.items()}, "q": q, "sql": G.sql_query(q), "pk": False})
+    for q in pk_family():
+        out.append({"db": {t: [list(r) for r in rows] for t, rows in PK_DATA.items()}, "q": q, "sql": G.sql_query(q), "pk": True})
     return out
